@@ -15,6 +15,7 @@ import (
 	"os"
 	"os/exec"
 	"path/filepath"
+	"sort"
 	"strings"
 	"sync"
 	"time"
@@ -579,6 +580,60 @@ func run(c *vf.Ctx) {
 			c.Eval(1)
 			events = append(events, map[string]any{"ev": "tcheck", "h": h, "t": t, "ok": got})
 			f.ReturnToPool()
+		}
+	}
+
+	// ---- copies of one frame handled at the same moment: a router runs one frame worker per CPU on the same session.
+	// Every frame of a run is delivered as four copies by four goroutines at once (sometimes late, inside the window);
+	// "at most once" is about all of them together. The decisions of one frame are written down one after the other.
+	for k := 0; k < c.Pick(10, 120); k++ {
+		for _, mt := range []frame.MessageType{frame.NetworkTraffic, frame.SessionCtrl} {
+			er := &e2eRecv{p: newPair(a, b), mt: mt, sealed: map[uint32][]byte{}}
+			hseq++
+			h := fmt.Sprintf("c%d", hseq)
+			events = append(events, map[string]any{"ev": "reset", "h": h, "binding": er.name() + "/concurrent copies"})
+			traces++
+			n := 300
+			wires := make([][]byte, n+1)
+			for s := 1; s <= n; s++ {
+				wires[s] = er.frameOf(uint32(s))
+			}
+			order := rng.Perm(n)
+			for i := range order { // mostly in order, with late ones inside the window
+				j := i + rng.Intn(20) - 10
+				if j >= 0 && j < n {
+					order[i], order[j] = order[j], order[i]
+				}
+			}
+			sort.Slice(order, func(x, y int) bool { return order[x]/24 < order[y]/24 })
+			for _, o := range order {
+				s := uint32(o + 1)
+				var wg sync.WaitGroup
+				res := make([]bool, 4)
+				start := make(chan struct{})
+				for g := 0; g < 4; g++ {
+					wg.Add(1)
+					go func(g int) {
+						defer wg.Done()
+						buf := append([]byte(nil), wires[s]...)
+						<-start
+						f, err := er.p.bb.ParseFrame(buf, nil, 0)
+						if err != nil {
+							return
+						}
+						res[g] = f.Unseal(er.p.sb) == nil
+					}(g)
+				}
+				close(start)
+				wg.Wait()
+				// a linearisation of the four decisions: an accepting one (if any) came first
+				sort.SliceStable(res, func(x, y int) bool { return res[x] && !res[y] })
+				for g := 0; g < 4; g++ {
+					c.Eval(1)
+					events = append(events, map[string]any{"ev": "check", "h": h, "s": int(s), "ok": res[g]})
+				}
+			}
+			c.Distinct(fmt.Sprintf("concurrent-copies|%s|%d", mt, k))
 		}
 	}
 
